@@ -317,21 +317,24 @@ def main():
     else:
         # histories with <= 2 sections are a subset of this part (creating the third section is optional)
         runs.append(("ansi-3sections", AnsiSpec(3, CORE_KINDS), 6))
+        runs.append(("ansi-2sections", AnsiSpec(2, CORE_KINDS), 7))
         runs.append(("ansi-2sections-extra", AnsiSpec(2, CORE_KINDS + [extra]), 5))
         xdepth = 3
     runs.append(("plain-PlainFormatter", PlainSpec(3, CORE_KINDS + [extra], "plain"), 6))
     runs.append(("plain-NullFormatter", PlainSpec(3, CORE_KINDS, "null"), 6))
-    tot_s = tot_t = 0
+    tot_t = 0
+    all_keys = set()  # the parts overlap (same fingerprint function): states are counted once, in the union
     all_closed = True
     for name, spec, depth in runs:
-        r = _c15_bfs.explore(spec, depth)
+        r = _c15_bfs.explore(spec, depth, keep_keys=True)
+        all_keys |= set((spec.mode, k) for k in r.keys) if spec.mode == "plain" else r.keys
+        r.keys = set()
         for v in r.violations:
             v["case"].update(mode=spec.mode, kinds=spec.kinds, max_sections=spec.max_sections)
             if spec.mode == "plain":
                 v["case"]["formatter"] = spec.formatter
         rep.merge(r.violations)
         rep.part(name, depth=depth, max_sections=spec.max_sections, kinds=spec.kinds, **r.as_dict())
-        tot_s += r.states
         tot_t += r.transitions
         all_closed = all_closed and r.closed
         for s in r.samples[:1]:
@@ -357,6 +360,7 @@ def main():
     rep.part("ansi-nodedup-crosscheck", depth=xdepth, executions_dedup=r1.transitions, executions_nodedup=r2.transitions,
              fingerprints=len(r2.keys), same_fingerprint_set=True)
     tot_t += r1.transitions + r2.transitions
+    tot_s = len(all_keys)
     rep.set("states", tot_s)
     rep.set("transitions", tot_t)
     rep.set("evaluations", tot_t)
@@ -369,7 +373,8 @@ def main():
     rep.set("rule", "every operation sequence up to the stated depth per part over {create, write_line, overwrite, clear, "
                     "clear(n<=lines)} x text kinds, executed on the real Output/SectionOutput; after every operation the "
                     "emitted bytes are interpreted by the terminal emulator (width 8) and compared with the reference list "
-                    "of lists; distinct_nontrivial = distinct full-state fingerprints (section vars + model + cursor)")
+                    "of lists; states = distinct_nontrivial = distinct full-state fingerprints (whole Output incl. every section's vars() + "
+                    "model + cursor) in the union of all parts; per-part numbers under parts")
     rep.assume("xterm deferred auto-wrap: a line of exactly 8 characters followed by a newline occupies one row")
     rep.assume("terminal of unbounded height (no scrolling); clear(n) with n above the section's line count and clear(0) are not explored")
     return rep.finish()
